@@ -129,6 +129,10 @@ class World:
         self.reader = asyncio.StreamReader()
         self.handler = client_tcp.ConnectionHandler(self.reader, FakeWriter(self.loop), self.client.process_message)
         self.task = self.loop.create_task(self.handler.wait_for_messages())
+        # the client's second (BLOB) connection: its own handler, its own reader
+        self.reader2 = asyncio.StreamReader()
+        self.handler2 = client_tcp.ConnectionHandler(self.reader2, FakeWriter(self.loop), self.client.process_message, for_blobs=True)
+        self.task2 = self.loop.create_task(self.handler2.wait_for_messages())
         self.loop.settle()
         self.evs: List[dict] = []
         self.calls: List[list] = []
@@ -206,6 +210,20 @@ class World:
                     self.reader.feed_data(data[prev:cpos])
                     prev = cpos
                     self._settle_io()
+            elif o == "recv2":
+                # two messages on the client's two connections, their reads interleaved: part of m on the control connection, part
+                # of m2 on the BLOB connection, the rest of m (completing it), the rest of m2
+                if "wire" not in op:
+                    for key, mk in (("wire", "m"), ("wire2", "m2")):
+                        text = spell(real_message(op[mk]).to_xml(), self.r.randrange(64))
+                        op[key] = text.rstrip().encode("latin1", errors="xmlcharrefreplace").decode("latin1")
+                    op["cutA"] = self.r.randint(1, len(op["wire"]) - 1)
+                    op["cutB"] = self.r.randint(1, len(op["wire2"]) - 1)
+                a, b = op["wire"].encode("latin1"), op["wire2"].encode("latin1")
+                asyncio.events._set_running_loop(None)
+                for rd, piece in ((self.reader, a[:op["cutA"]]), (self.reader2, b[:op["cutB"]]), (self.reader, a[op["cutA"]:]), (self.reader2, b[op["cutB"]:])):
+                    rd.feed_data(piece)
+                    self._settle_io()
             elif o == "recvbad":
                 asyncio.events._set_running_loop(None)
                 self.reader.feed_data(op["wire"].encode("latin1"))
@@ -259,7 +277,7 @@ class World:
             raised = True
             del self.loop.unhandled[:]
         obs = self.project()
-        ntasks = len([t for t in asyncio.all_tasks(self.loop) if not t.done() and t is not self.task])
+        ntasks = len([t for t in asyncio.all_tasks(self.loop) if not t.done() and t is not self.task and t is not self.task2])
         sent = []
         for msg in self.client.sent:
             if not type(msg).__name__.startswith("New"):
@@ -276,10 +294,11 @@ class World:
         del self.client.sent[:]
         obs["sent"] = sent
         obs.update({"evs": [self.ev_rec(e) for e in self.tap_events], "calls": [list(c) for c in self.calls], "ntasks": ntasks,
-                    "raised": raised, "alive": not self.task.done()})
-        rec = {k: op[k] for k in op if k != "m"}
-        if "m" in op:
-            rec["m"] = dict(op["m"])
+                    "raised": raised, "alive": not self.task.done() and not self.task2.done()})
+        rec = {k: op[k] for k in op if k not in ("m", "m2")}
+        for mk in ("m", "m2"):
+            if mk in op:
+                rec[mk] = dict(op[mk])
         rec["obs"] = obs
         return rec
 
@@ -312,6 +331,7 @@ def random_trace(r, length: int) -> List[dict]:
         known: List[dict] = []
         next_id = 1
         live: List[int] = []
+        cb_coro: Dict[int, bool] = {}
         for _ in range(length):
             x = r.random()
             if out and out[-1]["obs"]["ntasks"] > 0:
@@ -323,6 +343,13 @@ def random_trace(r, length: int) -> List[dict]:
                 elif m["t"] == "del":
                     known = [k for k in known if not (k["dev"] == m["dev"] and (m["vec"] == NONE or k["vec"] == m["vec"]))]
                 op = {"o": "recv", "m": m}
+                sets = [k for k in known if k["kind"] == "blob"] or known
+                # (only while no coroutine callback is registered: the loop iterations that read the second message would run them)
+                if sets and r.random() < 0.25 and not any(cb_coro.get(i) for i in live):
+                    k2 = r.choice(sets)
+                    names2 = r.sample([e[0] for e in k2["els"]], r.randint(1, len(k2["els"])))
+                    m2 = {"t": "set", "dev": k2["dev"], "vec": k2["vec"], "kind": k2["kind"], "st": r.choice(STATES), "els": [[n, r.choice(VALS[k2["kind"]])] for n in names2]}
+                    op = {"o": "recv2", "m": m, "m2": m2}
             elif x < 0.84 and len(live) < 4:
                 cb = {"id": next_id, "dev": r.choice([NONE, "A", "B"]), "vec": r.choice([NONE, NONE, "V", "W"]), "el": r.choice([NONE, NONE, "x", "y"]),
                       "ty": r.choice(["Base", "Value", "Value", "State", "Def"]), "coro": r.random() < 0.3, "raises": False}
@@ -331,6 +358,7 @@ def random_trace(r, length: int) -> List[dict]:
                 if not cb["coro"] and r.random() < 0.2:
                     cb["rm"] = next_id + 1          # will remove the callback registered right after it, from inside a dispatch
                 live.append(next_id)
+                cb_coro[next_id] = cb["coro"]
                 next_id += 1
                 op = {"o": "on", "cb": cb}
             elif x < 0.90 and live:
